@@ -26,8 +26,10 @@ TEXT = {
  "C15": ("simulated part: seeded init/fini histories (1..8 cycles per run, 1..64 workers requested through a global attribute object, the environment, or implicit first use; 2-3 native contexts racing the first use) under seeded schedules in which the main thread is stolen so that myth_fini runs on another worker; oracle = worker count and worker indices from every thread, exactly n-1 workers spawned per initialisation, all worker coroutines returned after fini, next init works. Input part (input generation, not schedule search): seeded malformed strings for MYTH_NUM_WORKERS / MYTH_WORKER_NUM / MYTH_DEF_STKSIZE / MYTH_BIND_WORKERS / MYTH_CPU_LIST in fresh processes with real worker threads; oracle = exit status 0, documented worker count, bounded time", "5.C15"),
  "C20": ("whole-library simulation against a virtual clock (coarse: reads that do not advance; forward jumps): myth_sleep/usleep/nanosleep with durations 0..seconds and malformed requests, timed lock with past/present/future deadlines against a holder thread, timed join against running/finished targets, sibling threads counting progress; oracle = virtual elapsed >= requested, EINVAL for malformed, timeout only after the last clock value handed to the call exceeded the deadline, success when the mutex was free throughout / the target had published its result before the call, a sleeper on the only worker lets a runnable sibling progress", "5.C20"),
  "C17": ("whole-library simulation of myth_create_join_many_ex / _various_ex (n incl. 0, all stride combinations incl. shared function slot and strides larger than the element, results/ids/attrs NULL or given, per-item attributes, nested call from a thread) and, through a C++ harness, of mtbb::task_group (up to 40 run() calls > inline capacity 8, nested groups, reuse) and mtbb::parallel_for (first,last), (first,last,step) and the grain-size form incl. empty, single-element and reversed ranges; oracle = per-item counters, argument addresses, result/id slots, guard bytes, nothing for n=0 / empty range, i.e. the sequential loop", "5.C17"),
+ "C03": ("whole-library simulation (library built at -O2 and at -O0) of probe threads that call every kind of switching API through an assembly stub loading per-(thread,operation) patterns into rbx, rbp, r12-r15 and a stack array, entered through both creation paths and migrating between workers under the seeded scheduler; oracle = bit-exact registers and stack contents after every operation, 16-byte aligned frame asserted inside every hook (hooks execute in all context-switch callbacks, thread entry paths and the scheduler), aligned SSE store at thread entry", "5.C03"),
 }
 NOTE = {
+ "C03": "x86-64 inline-assembly context switch only; MXCSR/x87 control words are not saved by the library (MYTH_SAVE_FPCSR 0) and are not checked; the red-zone skip is internal to the library frame at the asm statement",
  "C17": "stride arithmetic is input-driven; grain size 0 is not generated; range-object parallel_for (needs TBB headers) is not built",
  "C15": "the configuration-string half is input generation in fresh processes (natural timing); values that are well formed but unusable (tiny stacks, thousands of workers, numeric overflow) are never generated",
  "C20": "backward clock jumps are not injected (the property is unfalsifiable against them); durations above ~3 s are not generated",
